@@ -6,7 +6,17 @@ import "verifharness/hx"
 
 func eaddrEnc(e []int64) hx.Zs { return append(hx.Zs{int64(len(e))}, e...) }
 
-func OpAddLocalEntity(e []int64) hx.Zs { return append(hx.Zs{1}, eaddrEnc(e)...) }
+func OpAddLocalEntity(e []int64) hx.Zs    { return append(hx.Zs{1}, eaddrEnc(e)...) }
+func OpRemoveLocalEntity(e []int64) hx.Zs { return append(hx.Zs{14}, eaddrEnc(e)...) }
+
+// ackOf: ackRequest true (1 in 2), otherwise present and false (1 in 3) or absent
+func ackOf(r *hx.Rng) (bool, bool) {
+	if r.Chance(1, 2) {
+		return true, false
+	}
+	return false, r.Chance(1, 3)
+}
+
 func OpAddLocalFeature(e []int64, t, r int64) hx.Zs {
 	return append(hx.Zs{2, t, r}, eaddrEnc(e)...)
 }
@@ -120,6 +130,7 @@ func (p *Peer) Announce() []hx.Zs {
 }
 
 type Plan struct {
+	Ents   [][]int64
 	Locals []LFeat
 	Peers  []*Peer
 	Prefix []hx.Zs
@@ -132,7 +143,10 @@ var dataTypes = []int64{1, 2, 3, 6, 4}
 func GenPlan(r *hx.Rng) *Plan {
 	pl := &Plan{}
 	next := map[string]int64{}
-	for _, e := range [][]int64{{1}, {2}}[:r.Range(1, 2)] {
+	// flat and nested entity trees; a child may be created before its parent, or without it
+	trees := [][][]int64{{{1}}, {{1}, {2}}, {{1, 1}, {1}}, {{1}, {1, 1}}, {{1, 1}}, {{1, 1}, {1}, {2}}}
+	pl.Ents = trees[r.Pick(3, 4, 3, 2, 2, 2)]
+	for _, e := range pl.Ents {
 		pl.Prefix = append(pl.Prefix, OpAddLocalEntity(e))
 		next[ekey(e)] = 1
 		have := map[[2]int64]bool{}
@@ -197,6 +211,23 @@ func (pl *Plan) ConnectAll() []hx.Zs {
 }
 
 func (pl *Plan) localAddr(r *hx.Rng) (FAddr, *LFeat) {
+	if r.Chance(1, 10) && len(pl.Locals) > 0 {
+		// the parent or a child address of an existing feature's entity, same feature id: resolves only if
+		// exactly that entity exists (and then to its own feature)
+		f := pl.Locals[r.Intn(len(pl.Locals))]
+		e := append([]int64{}, f.Ent...)
+		if len(e) > 1 && r.Bool() {
+			e = e[:len(e)-1]
+		} else {
+			e = append(e, 1)
+		}
+		for i := range pl.Locals {
+			if ekey(pl.Locals[i].Ent) == ekey(e) && pl.Locals[i].Id == f.Id {
+				return pl.Locals[i].Addr(int64(r.Intn(2))), &pl.Locals[i]
+			}
+		}
+		return FAddr{Dev: int64(r.Intn(2)), Ent: e, Feat: f.Id + 1}, nil
+	}
 	switch r.Pick(14, 3, 2, 1) {
 	case 0:
 		if len(pl.Locals) > 0 {
@@ -258,7 +289,8 @@ func (pl *Plan) regCall(r *hx.Rng, p *Peer) RegCall {
 func (pl *Plan) Datagram(r *hx.Rng, p *Peer, refs []int64) Dgram {
 	src, rf := pl.remoteAddr(r, p)
 	dst, lf := pl.localAddr(r)
-	d := Dgram{Src: src, Dst: dst, Ctr: p.Next(), Ack: r.Chance(1, 2)}
+	d := Dgram{Src: src, Dst: dst, Ctr: p.Next()}
+	d.Ack, d.AckFalse = ackOf(r)
 	if r.Chance(1, 3) && len(refs) > 0 {
 		d.Ref = refs[r.Intn(len(refs))] + 1
 	}
@@ -441,14 +473,14 @@ func MatrixHistory(t, role int64, full bool) []hx.Zs {
 	n := 0
 	for _, pl := range pays {
 		for cls := int64(0); cls <= 5; cls++ {
-			for _, ack := range []bool{false, true} {
+			for _, ack := range []int{0, 1, 2} { // ackRequest absent / true / present and false
 				for _, known := range []bool{true, false} {
 					for _, ann := range []bool{true, false} {
 						for _, p := range peers { // peer 1 is bound and subscribed, peer 2 is not
 							n++
 							// the function element (absent / the data's / empty / another) and, for reads of data
 							// functions, the restriction (none / selectors / elements) cycle through the cells
-							d := Dgram{Ctr: p.Next(), Ack: ack, Cls: cls, Pl: pl, Fct: int64(n % 4)}
+							d := Dgram{Ctr: p.Next(), Ack: ack == 1, AckFalse: ack == 2, Cls: cls, Pl: pl, Fct: int64(n % 4)}
 							if cls == 0 && pl.Kind == 0 {
 								d.Sel = int64(n/4) % 3
 							}
@@ -528,7 +560,72 @@ func Matrix(tier string) [][]hx.Zs {
 		}
 	}
 	out = append(out, MatrixHistory(5, 2, true))
+	out = append(out, NestedHistory(true), NestedHistory(false))
 	return out
+}
+
+// NestedHistory: nested local entities with same-numbered features.  The child [1,1] is created BEFORE its
+// parent [1] (withParent) or without it; both carry features 1 and 2 with different types and data.  Every
+// classifier x ack x both peers is sent to the parent, the child, a grandchild and an unrelated entity,
+// features 1-3; then the parent is removed (its address, a proper prefix of the child's, must resolve to
+// nothing: one error result with the local device address) and everything is sent again; then the child.
+func NestedHistory(withParent bool) []hx.Zs {
+	var h []hx.Zs
+	child, parent := []int64{1, 1}, []int64{1}
+	set := func(e []int64, t1, t2, base int64) {
+		h = append(h, OpAddLocalEntity(e), OpAddLocalFeature(e, t1, 1), OpAddLocalFeature(e, t2, 1))
+		for id, t := range []int64{t1, t2} {
+			for _, fn := range FnsOfType(t)[:3] {
+				h = append(h, OpAddFunction(e, int64(id+1), fn, true, true), OpSetData(e, int64(id+1), fn, base+fn))
+			}
+		}
+	}
+	set(child, 1, 2, 500)
+	if withParent {
+		set(parent, 2, 1, 100)
+	}
+	peers := []*Peer{{Ski: 1}, {Ski: 2}}
+	for _, p := range peers {
+		p.Feats = []RFeat{{Ent: []int64{1}, Id: 1, Type: 4, Role: 0}, {Ent: []int64{1}, Id: 2, Type: 4, Role: 1}}
+		h = append(h, p.Announce()...)
+	}
+	p1 := peers[0]
+	for _, srv := range []FAddr{{Dev: 1, Ent: child, Feat: 2}, {Dev: 1, Ent: parent, Feat: 3}} {
+		h = append(h, OpInbound(1, Dgram{Src: p1.Addr(nmFeat, true), Dst: NMLocal.Addr(1), Ctr: p1.Next(), Ack: true, Cls: 4,
+			Pl: Payload{Kind: 5, Call: RegCall{Cli: p1.Addr(p1.Feats[0], true), Srv: srv, Type: 1}}}))
+	}
+	n := 0
+	block := func() {
+		for _, e := range [][]int64{parent, child, {1, 1, 1}, {2}} {
+			for feat := int64(1); feat <= 3; feat++ {
+				for cls := int64(0); cls <= 5; cls++ {
+					for ack := 0; ack <= 2; ack++ {
+						n++
+						p := peers[n%2]
+						d := Dgram{Src: p.Addr(p.Feats[0], true), Dst: FAddr{Dev: int64(n/2) % 2, Ent: e, Feat: feat + 1}, Ctr: p.Next(),
+							Ack: ack == 1, AckFalse: ack == 2, Cls: cls, Fct: int64(n % 4)}
+						if cls == 5 {
+							d.Result = true
+							d.Err = int64(n % 3)
+							d.Ref = 3
+						} else {
+							d.Pl = Payload{Kind: 0, Fn: []int64{11, 17, 12, 18}[n%4]}
+							if cls != 0 {
+								d.Pl.V = int64(200 + n%700)
+							}
+						}
+						h = append(h, OpInbound(p.Ski, d))
+					}
+				}
+			}
+		}
+	}
+	block()
+	h = append(h, OpRemoveLocalEntity(parent))
+	block()
+	h = append(h, OpRemoveLocalEntity(child))
+	block()
+	return h
 }
 
 // Random: a random world, typical registrations, then random traffic with data changes,
@@ -548,6 +645,10 @@ func Random(r *hx.Rng, tier string, cbWeight int) []hx.Zs {
 	gone := map[int64]bool{}
 	for k := 0; k < n; k++ {
 		p := pl.Peers[r.Intn(len(pl.Peers))]
+		if r.Chance(1, 60) && len(pl.Ents) > 0 {
+			h = append(h, OpRemoveLocalEntity(pl.Ents[r.Intn(len(pl.Ents))]))
+			continue
+		}
 		switch r.Pick(60, 8, 3, 2, cbWeight, 4) {
 		case 0:
 			h = append(h, OpInbound(p.Ski, pl.Datagram(r, p, refs)))
@@ -611,7 +712,7 @@ func CallbackHistory(r *hx.Rng, tier string) []hx.Zs {
 		p := pl.Peers[r.Intn(len(pl.Peers))]
 		t := targets[r.Intn(len(targets))]
 		src, rf := pl.remoteAddr(r, p)
-		d := Dgram{Src: src, Dst: t.Addr(int64(r.Intn(2))), Ctr: p.Next(), Ack: r.Chance(1, 4)}
+		d := Dgram{Src: src, Dst: t.Addr(int64(r.Intn(2))), Ctr: p.Next(), Ack: r.Chance(1, 4), AckFalse: r.Chance(1, 4)}
 		if r.Chance(1, 10) {
 			d.Dst, _ = pl.localAddr(r)
 		}
